@@ -81,10 +81,25 @@ CHECKS = {
 NA_REASON = "not claimed"
 
 
+def part_names(pid, tier):
+    try:
+        import subprocess
+        import sys
+
+        py = os.path.join(ROOT, ".venv", "bin", "python")
+        code = "import sys; sys.path.insert(0, %r); import props; print(', '.join(p.name for p in props.all_parts(%r, %r)))" % (ROOT, pid, tier)
+        return subprocess.run([py if os.path.exists(py) else sys.executable, "-c", code], capture_output=True, text=True, timeout=120).stdout.strip()
+    except Exception:
+        return ""
+
+
 def main():
     checks = []
     for pid in sorted(CHECKS):
         cat, ref, tech, text, note = CHECKS[pid]
+        q, t = part_names(pid, "quick"), part_names(pid, "thorough")
+        if q:
+            text = text + " Explorations run by the quick tier: " + q + "; the thorough tier adds: " + (", ".join(x for x in t.split(", ") if x not in q.split(", ")) or "nothing") + " (see DESIGN.md 10.5; each also runs a reachability twin)."
         checks.append({
             "property_id": pid,
             "quick_cmd": "./check %s quick" % pid,
@@ -92,7 +107,7 @@ def main():
             "evidence_file": "evidence/%s.json" % pid,
             "replay_cmd_template": "./check %s --replay {path}" % pid,
             "engine": "SX+CH" if pid in ("C01", "C02", "C03", "C07", "C12", "C15", "C20") else "SX",
-            "level_claimed": {"category": cat, "text": text, "design_ref": "DESIGN.md section " + ref},
+            "level_claimed": {"category": cat, "text": text, "design_ref": "DESIGN.md section " + ref + " and 10"},
             "level_note": note,
             "technique": tech,
         })
